@@ -714,6 +714,13 @@ func dbGen(r *rand.Rand, n int, length int, withReopen bool) []Case {
 		ops := []string{"open " + cfg()}
 		tags := map[string]bool{}
 		nk := 3 + r.Intn(6)
+		caseKeys = nil
+		if c%9 == 4 {
+			// a key universe made of pairs that collide in 32 bits of their hash (read one and the other, overwrite the other)
+			p, q := collidingKeys[r.Intn(len(collidingKeys))], collidingKeys[r.Intn(len(collidingKeys))]
+			caseKeys = []string{p[0], p[1], q[0], q[1]}
+			tags["hash-colliding-keys"] = true
+		}
 		type tx struct {
 			idx    int
 			update bool
@@ -737,6 +744,23 @@ func dbGen(r *rand.Rand, n int, length int, withReopen bool) []Case {
 				}
 			}
 			return o
+		}
+		if len(caseKeys) == 4 {
+			// the pattern the conflict check exists for, on colliding keys: T reads both keys of a pair, U overwrites the one read
+			// second (then, in a second round, the one read first), T writes and commits: refused both times
+			for round := 0; round < 2; round++ {
+				a, b := caseKeys[2*round], caseKeys[2*round+1]
+				if round == 1 {
+					a, b = b, a
+				}
+				t := begin(true)
+				ops = append(ops, fmt.Sprintf("get %d %s", t.idx, hxs(a)), fmt.Sprintf("get %d %s", t.idx, hxs(b)))
+				u := begin(true)
+				ops = append(ops, fmt.Sprintf("set %d %s %s", u.idx, hxs(b), hxs(fmt.Sprintf("u%d", round))), fmt.Sprintf("commit %d", u.idx))
+				u.open = false
+				ops = append(ops, fmt.Sprintf("set %d %s %s", t.idx, hxs("z"), hxs(fmt.Sprintf("t%d", round))), fmt.Sprintf("commit %d", t.idx))
+				t.open = false
+			}
 		}
 		for i := 0; i < length; i++ {
 			x := r.Intn(100)
@@ -849,6 +873,7 @@ func dbGen(r *rand.Rand, n int, length int, withReopen bool) []Case {
 		for t := range tags {
 			tl = append(tl, t)
 		}
+		caseKeys = nil
 		cases = append(cases, Case{Ops: ops, Tags: tl})
 	}
 	return cases
